@@ -244,23 +244,22 @@ def check(env, rep, tier):
         if b is None or g is None:
             rep.missing("C06.7", "Packet::set_observe_value / get_observe_value")
         else:
-            I = new_interp(prog)
-            I.max_depth = 0
-            st = State()
-            args = [I.mat(st, prog.ty(b["locals"][i + 1]["ty"]), "a%d" % i) for i in range(b["arg_count"])]
-            seen = []
-
-            def hook(I_, s_, call, cbody, seen=seen):
-                if call.path in ("packet::Packet::add_option_as", "packet::Packet::set_options_as") and call.ctx.depth == 0:
-                    v = call.args[2] if len(call.args) > 2 else None
-                    seen.append(v.fields[0] if isinstance(v, StructV) and v.fields else v)
-            I.call_hooks.append(hook)
-            I, res = run(prog, b, args=args, st=st, I=I)
-            ok = bool(seen) and isinstance(args[1], IntV) and all(isinstance(x, IntV) and x.aff == args[1].aff for x in seen)
+            import provenance
+            wraps, typed = [], 0
+            for bb in b["blocks"]:
+                if bb.get("cleanup"):
+                    continue
+                for stt in bb["stmts"]:
+                    if stt["k"] == "assign" and stt["rv"]["k"] == "aggregate" and str(stt["rv"]["kind"].get("path", "")).startswith("option_value::OptionValueU"):
+                        wraps.append((stt["rv"]["kind"]["path"], provenance.trace(b, stt["rv"]["ops"][0])))
+                t = bb["term"]
+                if t["k"] == "call" and provenance.callee_path(t) in ("packet::Packet::add_option_as", "packet::Packet::set_options_as"):
+                    typed += 1
+            ok = typed >= 1 and len(wraps) >= 1 and all(w[0].endswith("U32") and w[1] == ([], ("arg", 2, "")) for w in wraps)
             rep.ob("C06.7", "set_observe_value", ok,
                    "set_observe_value does not hand its argument unchanged to the typed setter (a masked, shifted or truncated "
-                   "number is stored, so the stored bytes are not the encoding of the value given)",
-                   {"file": b["span"]["f"], "line": b["span"]["l"], "fn": b["path"]}, sample={"rule": "C06.7", "typed_writes": len(seen)})
+                   "number is stored, so the stored bytes are not the encoding of the value given): wrapped values %s" % (wraps,),
+                   {"file": b["span"]["f"], "line": b["span"]["l"], "fn": b["path"]}, sample={"rule": "C06.7", "typed_writes": typed})
             I = new_interp(prog)
             st = State()
             args = [I.mat(st, prog.ty(g["locals"][1]["ty"]), "self")]
